@@ -37,7 +37,7 @@ def fmtPxP : Option PixelInfo → String
 
 /-- the metadata printed for a detected / listed format: everything from the code-shaped
 definitions (`formatPixelInfoP`, `bitsPerPixel`, `encodingSupport`), the colour from the pinned row -/
-def fmtMeta (f : Format) : String :=
+def fmtMeta (f : Dds.C19.Format) : String :=
   let bpp := match formatPixelInfoP f with | some p => toString (bitsPerPixel p) | none => "panic"
   s!"FP:{fmtPxP (formatPixelInfoP f)} C:{fmtColor f.row.color} B:{bpp} S:{fmtSupport (encodingSupport f)}"
 
@@ -77,7 +77,7 @@ def optNat : Option Nat → String
 def runMeta (t : List String) : String :=
   match t with
   | [i] =>
-    match (nat? i).bind (Format.all[·]?) with
+    match (nat? i).bind (Dds.C19.Format.all[·]?) with
     | none => "bad-case"
     | some f =>
       let k := match formatToMask f with
@@ -86,10 +86,10 @@ def runMeta (t : List String) : String :=
       s!"M:{f.name} {fmtMeta f} X:{optNat f.row.dxgi} 4:{optNat f.row.fourCC} K:{k}"
   | _ => "bad-case"
 
-def getFormat (s : String) : Option Format := (nat? s).bind (Format.all[·]?)
+def getFormat (s : String) : Option Dds.C19.Format := (nat? s).bind (Dds.C19.Format.all[·]?)
 def getColor (s : String) : Option ColorFormat := (nat? s).bind (ColorFormat.all[·]?)
 
-def surfBytes (f : Format) (w h : Nat) : Option Nat :=
+def surfBytes (f : Dds.C19.Format) (w h : Nat) : Option Nat :=
   (formatPixelInfoP f).bind (·.surfaceBytes w h)
 
 def runDecode (t : List String) : String :=
